@@ -608,3 +608,330 @@ pub fn size_class(n: usize) -> &'static str {
         _ => ">=1000",
     }
 }
+
+// ---------------------------------------------------------------------------------------------
+// numeric value-domain stream: exact f64 / i64 values inserted through the storage API (no SQL
+// literals), sizes around the SIMD lane width (4) and the batch size (1024), value domains chosen
+// per table; statements aggregate a DOUBLE column `d` and a BIGINT column `b` with and without a
+// one-sided filter against zero.
+
+pub const NUM_SIZES: &[usize] = &[1, 2, 3, 4, 5, 7, 8, 9, 1023, 1024, 1025, 2047, 2048, 2049];
+pub const D_DOMAINS: &[&str] = &[
+    "all-negative", "all-non-positive", "all-positive", "all-zero", "mixed-sign", "single-repeated",
+    "huge-exact-negative", "huge-exact-mixed", "tiny-exact-non-positive", "tiny-exact-mixed", "extremes-minmax-only",
+];
+pub const B_DOMAINS: &[&str] = &["all-negative", "all-positive", "mixed-sign", "all-zero", "i64-extremes"];
+
+fn pow2(e: i32) -> f64 {
+    2f64.powi(e)
+}
+
+pub fn gen_d(r: &mut Rng, dom: &str, single: f64) -> f64 {
+    let q = |r: &mut Rng| r.range(1, 200) as f64 / 4.0;
+    match dom {
+        "all-negative" => -q(r),
+        "all-non-positive" => match r.below(4) {
+            0 => 0.0,
+            1 => -0.0,
+            _ => -q(r),
+        },
+        "all-positive" => q(r),
+        "all-zero" => {
+            if r.chance(1, 2) {
+                0.0
+            } else {
+                -0.0
+            }
+        }
+        "mixed-sign" => match r.below(5) {
+            0 => 0.0,
+            1 | 2 => q(r),
+            _ => -q(r),
+        },
+        "single-repeated" => single,
+        "huge-exact-negative" => -(r.range(1, 100) as f64) * pow2(990),
+        "huge-exact-mixed" => (r.range(-100, 100) as f64) * pow2(990),
+        "tiny-exact-non-positive" => match r.below(6) {
+            0 => -5e-324,
+            1 => -f64::MIN_POSITIVE,
+            2 => -0.0,
+            _ => -(r.range(0, 100) as f64) * pow2(-1060),
+        },
+        "tiny-exact-mixed" => match r.below(8) {
+            0 => 5e-324,
+            1 => -5e-324,
+            2 => f64::MIN_POSITIVE,
+            _ => (r.range(-100, 100) as f64) * pow2(-1060),
+        },
+        _ => *r.pick(&[1e300, -1e300, f64::MAX / 2.0, -f64::MAX / 2.0, 1e-300, -1e-300, 5e-324, -5e-324, f64::MIN_POSITIVE, -f64::MIN_POSITIVE, 0.0, -1.5]),
+    }
+}
+
+pub fn gen_b(r: &mut Rng, dom: &str) -> i64 {
+    match dom {
+        "all-negative" => -r.range(1, 1000),
+        "all-positive" => r.range(1, 1000),
+        "mixed-sign" => r.range(-1000, 1000),
+        "all-zero" => 0,
+        _ => *r.pick(&[i64::MIN, i64::MAX, i64::MIN + 1, i64::MAX - 1, -1, 0, 1]),
+    }
+}
+
+pub struct NumCase {
+    pub n: usize,
+    pub d_dom: &'static str,
+    pub b_dom: &'static str,
+    pub null_pct: u64,
+    pub d: Vec<Option<f64>>,
+    pub b: Vec<Option<i64>>,
+}
+
+pub fn gen_num_case(r: &mut Rng, n: usize, d_dom: &'static str, b_dom: &'static str) -> NumCase {
+    let null_pct = *r.pick(&[0u64, 0, 20, 100]);
+    let single = *r.pick(&[-2.5, 0.0, -0.0, 7.25, -f64::MIN_POSITIVE, -1e300]);
+    let d_dom_eff = d_dom;
+    let d = (0..n).map(|_| if r.below(100) < null_pct { None } else { Some(gen_d(r, d_dom_eff, single)) }).collect();
+    let b = (0..n).map(|_| if r.below(100) < null_pct.min(20) { None } else { Some(gen_b(r, b_dom)) }).collect();
+    NumCase { n, d_dom, b_dom, null_pct, d, b }
+}
+
+pub fn load_num_case(c: &NumCase) -> Db {
+    let mut db = Db::new();
+    db.keep_log = false;
+    db.must("CREATE TABLE g (k INTEGER, d DOUBLE PRECISION, b BIGINT)");
+    let name = if db.db.get_table("G").is_some() { "G" } else { "g" };
+    for i in 0..c.n {
+        let row = vibesql_storage::Row::new(vec![
+            SqlValue::Integer(i as i64),
+            c.d[i].map(SqlValue::Double).unwrap_or(SqlValue::Null),
+            c.b[i].map(SqlValue::Bigint).unwrap_or(SqlValue::Null),
+        ]);
+        db.db.insert_row(name, row).expect("harness precondition: direct insert");
+    }
+    db
+}
+
+pub fn num_case_text(c: &NumCase) -> String {
+    let show = 40.min(c.n);
+    format!(
+        "-- table g (k INTEGER, d DOUBLE PRECISION, b BIGINT): {} rows inserted through the storage API, d domain {}, b domain {}, NULL {}%\n-- first {} rows (d bits shown exactly): {}\n",
+        c.n,
+        c.d_dom,
+        c.b_dom,
+        c.null_pct,
+        show,
+        (0..show).map(|i| format!("({:?}, {:?})", c.d[i], c.b[i])).collect::<Vec<_>>().join(" ")
+    )
+}
+
+#[derive(Clone, Copy, Debug, PartialEq)]
+pub enum NumAgg {
+    CountStar,
+    Count,
+    Sum,
+    Avg,
+    Min,
+    Max,
+}
+
+#[derive(Clone, Debug)]
+pub struct NumStmt {
+    pub col: char, // 'd' or 'b'
+    pub aggs: Vec<NumAgg>,
+    /// `col op 0` (false) or `col op 0.0` (true)
+    pub pred: Option<(Cmp, bool)>,
+}
+
+impl NumStmt {
+    pub fn sql(&self) -> String {
+        let c = self.col;
+        let items: Vec<String> = self
+            .aggs
+            .iter()
+            .map(|a| match a {
+                NumAgg::CountStar => "COUNT(*)".to_string(),
+                NumAgg::Count => format!("COUNT({})", c),
+                NumAgg::Sum => format!("SUM({})", c),
+                NumAgg::Avg => format!("AVG({})", c),
+                NumAgg::Min => format!("MIN({})", c),
+                NumAgg::Max => format!("MAX({})", c),
+            })
+            .collect();
+        let mut q = format!("SELECT {} FROM g", items.join(", "));
+        if let Some((op, fl)) = self.pred {
+            q.push_str(&format!(" WHERE {} {} {}", c, op.sql(), if fl { "0.0" } else { "0" }));
+        }
+        q
+    }
+}
+
+/// statements for one table; SUM/AVG are left out where they are not comparable (see the caller)
+pub fn num_statements(c: &NumCase) -> Vec<NumStmt> {
+    use NumAgg::*;
+    let d_sums = c.d_dom != "extremes-minmax-only";
+    let b_avg = c.b_dom != "i64-extremes";
+    let mut out = vec![];
+    let d_all: Vec<NumAgg> = if d_sums { vec![CountStar, Count, Sum, Avg, Min, Max] } else { vec![CountStar, Count, Min, Max] };
+    let b_all: Vec<NumAgg> = if b_avg { vec![CountStar, Count, Avg, Min, Max] } else { vec![CountStar, Count, Min, Max] };
+    out.push(NumStmt { col: 'd', aggs: d_all.clone(), pred: None });
+    out.push(NumStmt { col: 'b', aggs: b_all.clone(), pred: None });
+    out.push(NumStmt { col: 'd', aggs: vec![Max], pred: None });
+    out.push(NumStmt { col: 'd', aggs: vec![Min], pred: None });
+    out.push(NumStmt { col: 'b', aggs: vec![Max, Min], pred: None });
+    for (op, fl) in [(Cmp::Lt, false), (Cmp::Le, true), (Cmp::Gt, true), (Cmp::Lt, true), (Cmp::Ge, false)] {
+        out.push(NumStmt { col: 'd', aggs: d_all.clone(), pred: Some((op, fl)) });
+    }
+    for op in [Cmp::Lt, Cmp::Le, Cmp::Gt] {
+        out.push(NumStmt { col: 'b', aggs: b_all.clone(), pred: Some((op, false)) });
+    }
+    if b_avg {
+        // row path only (SUM over an exact integer column declines the columnar path)
+        out.push(NumStmt { col: 'b', aggs: vec![Sum, CountStar], pred: Some((Cmp::Le, false)) });
+    }
+    out
+}
+
+/// known-finding class C03/filter-epsilon: a DOUBLE value within 1e-9 of the literal 0 but not 0
+pub fn epsilon_class(c: &NumCase, st: &NumStmt) -> bool {
+    st.col == 'd' && st.pred.is_some() && c.d.iter().flatten().any(|v| *v != 0.0 && v.abs() < 1e-9)
+}
+
+#[derive(Clone, Debug)]
+pub enum NumWant {
+    Int(i128),
+    F(f64),
+    Null,
+}
+
+/// the SQL definition, computed directly
+pub fn num_expected(c: &NumCase, st: &NumStmt) -> Vec<NumWant> {
+    let keep_f = |v: f64| match st.pred {
+        None => true,
+        Some((op, _)) => v.partial_cmp(&0.0).map(|o| op.holds(o)).unwrap_or(false),
+    };
+    let keep_i = |v: i64| match st.pred {
+        None => true,
+        Some((op, _)) => op.holds(v.cmp(&0)),
+    };
+    let (rows, fvals, ivals): (usize, Vec<f64>, Vec<i64>) = if st.col == 'd' {
+        let sel: Vec<Option<f64>> = c.d.iter().cloned().filter(|v| st.pred.is_none() || v.map(keep_f).unwrap_or(false)).collect();
+        (sel.len(), sel.iter().flatten().cloned().collect(), vec![])
+    } else {
+        let sel: Vec<Option<i64>> = c.b.iter().cloned().filter(|v| st.pred.is_none() || v.map(keep_i).unwrap_or(false)).collect();
+        (sel.len(), vec![], sel.iter().flatten().cloned().collect())
+    };
+    st.aggs
+        .iter()
+        .map(|a| {
+            if st.col == 'd' {
+                let n = fvals.len();
+                match a {
+                    NumAgg::CountStar => NumWant::Int(rows as i128),
+                    NumAgg::Count => NumWant::Int(n as i128),
+                    _ if n == 0 => NumWant::Null,
+                    NumAgg::Sum => NumWant::F(fvals.iter().sum()),
+                    NumAgg::Avg => NumWant::F(fvals.iter().sum::<f64>() / n as f64),
+                    NumAgg::Min => NumWant::F(fvals.iter().cloned().fold(f64::INFINITY, f64::min)),
+                    NumAgg::Max => NumWant::F(fvals.iter().cloned().fold(f64::NEG_INFINITY, f64::max)),
+                }
+            } else {
+                let n = ivals.len();
+                let sum: i128 = ivals.iter().map(|v| *v as i128).sum();
+                match a {
+                    NumAgg::CountStar => NumWant::Int(rows as i128),
+                    NumAgg::Count => NumWant::Int(n as i128),
+                    _ if n == 0 => NumWant::Null,
+                    NumAgg::Sum => NumWant::Int(sum),
+                    NumAgg::Avg => NumWant::F(sum as f64 / n as f64),
+                    NumAgg::Min => NumWant::Int(*ivals.iter().min().unwrap() as i128),
+                    NumAgg::Max => NumWant::Int(*ivals.iter().max().unwrap() as i128),
+                }
+            }
+        })
+        .collect()
+}
+
+fn f_close(g: f64, w: f64) -> bool {
+    g == w || (g - w).abs() <= 1e-9 * g.abs().max(w.abs())
+}
+
+/// MIN / MAX / COUNT exactly (0.0 == -0.0), SUM / AVG to 1e-9 relative
+pub fn num_value_ok(agg: NumAgg, got: &SqlValue, want: &NumWant) -> bool {
+    match want {
+        NumWant::Null => matches!(got, SqlValue::Null),
+        NumWant::Int(i) => match got {
+            SqlValue::Integer(x) | SqlValue::Bigint(x) => *x as i128 == *i,
+            other => f64_of(other).map(|f| f == *i as f64).unwrap_or(false),
+        },
+        NumWant::F(w) => match f64_of(got) {
+            None => false,
+            Some(g) => {
+                if matches!(agg, NumAgg::Min | NumAgg::Max) {
+                    g == *w
+                } else {
+                    f_close(g, *w)
+                }
+            }
+        },
+    }
+}
+
+pub fn num_row_ok(st: &NumStmt, out: &Out, want: &[NumWant]) -> bool {
+    match out {
+        Out::Rows(r) => r.len() == 1 && r[0].len() == want.len() && st.aggs.iter().zip(r[0].iter().zip(want)).all(|(a, (g, w))| num_value_ok(*a, g, w)),
+        _ => false,
+    }
+}
+
+/// two engine results of the same statement: MIN / MAX / COUNT exactly, SUM / AVG to 1e-9 relative
+pub fn num_outs_agree(st: &NumStmt, a: &Out, b: &Out) -> bool {
+    match (a, b) {
+        (Out::Rows(x), Out::Rows(y)) => {
+            x.len() == 1
+                && y.len() == 1
+                && x[0].len() == y[0].len()
+                && x[0].len() == st.aggs.len()
+                && st.aggs.iter().zip(x[0].iter().zip(y[0].iter())).all(|(agg, (u, v))| match (u, v) {
+                    (SqlValue::Null, SqlValue::Null) => true,
+                    _ => match (f64_of(u), f64_of(v)) {
+                        (Some(f), Some(g)) => {
+                            if matches!(agg, NumAgg::Sum | NumAgg::Avg) {
+                                f_close(f, g)
+                            } else {
+                                f == g
+                            }
+                        }
+                        _ => false,
+                    },
+                })
+        }
+        (Out::Err { .. }, Out::Err { .. }) => true,
+        _ => false,
+    }
+}
+
+/// (size, d domain, b domain) list: quick = every size with rotating domains and every domain at a
+/// small, a lane-boundary and a batch-boundary size; thorough = the full product for d
+pub fn num_plan(r: &mut Rng, thorough: bool) -> Vec<(usize, &'static str, &'static str)> {
+    let mut plan = vec![];
+    if thorough {
+        for &n in NUM_SIZES {
+            for (i, d) in D_DOMAINS.iter().enumerate() {
+                plan.push((n, *d, B_DOMAINS[(i + n) % B_DOMAINS.len()]));
+            }
+        }
+    } else {
+        for (j, &n) in NUM_SIZES.iter().enumerate() {
+            for t in 0..2 {
+                plan.push((n, D_DOMAINS[(2 * j + t) % D_DOMAINS.len()], B_DOMAINS[(j + t) % B_DOMAINS.len()]));
+            }
+        }
+        for (i, d) in D_DOMAINS.iter().enumerate() {
+            for &n in &[3usize, 5, 1025] {
+                plan.push((n, *d, B_DOMAINS[(i + n) % B_DOMAINS.len()]));
+            }
+        }
+        let _ = r.next();
+    }
+    plan
+}
